@@ -18,6 +18,18 @@ CLAIMS = {
          "Decides: serve()/handler reachable only after successful servernegotiate; servernegotiate succeeds only after ReadFcall ok, checked .(MessageTversion) ok-edge and successful reply write; every SetMSize(x) sits on an edge implying x < ch.MSize() (msize only lowered) with x>=0; Rversion.MSize on each path is the value installed or the unchanged channel msize and every path sets it; Tversion.MSize == ch.MSize(); client.msize read from the channel after negotiation; SetMSize/newChannel keep len(rdbuf)==msize.",
          "Not decided: frame sizes after the handshake as values (enforcement points are C02/C03), version-string policy.",
          "§4 C10"),
+ "C08": ("typestate + ownership interpretation of sfilesys.go, who-may-access rule on the fid table, dominance/edge rules, conditional constant propagation over Mode&3",
+         "Decides: every fid-table access is of an allowed kind in an allowed helper (locked getter, placeholder constructor, unbind-release helper, Stop, Delete of a fid the function holds); every Fid parameter of every Session method is resolved through them and failure returns an error; NOFID refused before the table is touched; constructor succeeds only on the not-loaded edge, getter only for present non-nil entries; Walk binds only on len(qids)==len(names) with qids/entry from Dirent.Walk on the source entry and the request's names, reserves newfid only when newfid!=fid; unbind precedes anything that can fail; open-once guard; Create leaves File/Mode set; admitted Mode&3 sets for Read/Write equal the 9P sets independent of flag bits.",
+         "Not decided: equivalence with the reference fid table over all histories (a wrong value stored under the right discipline is invisible), behaviour of the FileSys.",
+         "§4 C08"),
+ "C13": ("ESP-style typestate interpretation with an ownership lattice (bound / nil / released) per fid token over every path of sfilesys.go, incl. deferred closures",
+         "Decides: no handle is overwritten while live except the parent handle consumed by Dirent.Create on it; after Clunk/Remove (direct or via the inferred release helper) nil or a new handle is stored before the lock is dropped/return; no double release, no use after release; a fid deleted from the table is a placeholder or released; reserved placeholders are bound or removed; entries handed out by Dirent.Create/FileSys.Attach are bound or released on every success path; releases happen under the fid lock; Stop visits every entry and releases it through the unbind-lock-release helper.",
+         "Not decided: the dynamic statement over all histories x failing subsets; entries returned for partial walks (never bound); what a FileSys does inside Clunk/Remove.",
+         "§4 C13, §3 E9"),
+ "C14": ("ESP-style typestate interpretation (lock pairing with captured cells, deferred unlocks/closures, correlated branch predicates), inferred lock summaries, lockset rule for field accesses",
+         "Decides: on every path of every function of sfilesys.go no return leaves a fid locked (except the inferred returns-locked helpers, exactly on success), no unlock of a lock not held; no blocking acquisition of a shared fid lock (Lock, getRef, delRef or callers) while a fid lock is held; every SFid.Ent/File/Mode access and every FileSys call on a fid's entry/file is made under that fid's lock or on an unpublished object.",
+         "Not decided: linearizability of results, data races outside the SFid discipline, termination of FileSys calls. Trusted: sync.Mutex/sync.Map.",
+         "§4 C14, §3 E6/E7a"),
 }
 
 REASON_PENDING = "static check not built yet in this round (planned per DESIGN.md §4); not claimed until its rules are in place"
